@@ -56,8 +56,13 @@ def two_slot(X, Y, ax=None, ay=None, small=False):
     yield [If([cx]), If([cy])]
     yield [If([cx], [cy])]
     yield [Sw(1, [(0, [cx]), (1, [cy])])]
+    # a Switch that FOLLOWS an If at the same level is parallel to it (not an alternative of it)
+    yield [If([cx]), Sw(1, [(0, [cy])])]
     if small:
         return
+    yield [If([cx]), Fsm(([cy], 0, "1"))]
+    yield [Sw(1, [(0, [cx])]), Sw(1, [(1, [cy])])]
+    yield [If([], [cx]), Sw(1, [(0, [])], default=[cy])]
     yield [Fsm(([cx], 1, "1"), ([cy], 0, "1"))]
     yield [If([If([cx], [cy], has_else=True)])]
     yield [If([cx]), call(Y, en="in", arg=ay)]
@@ -131,12 +136,26 @@ def f_ctrl():
     yield D([[m0, If([If([t0], [t1], has_else=True)])]])
     yield D([[m0, If([t0, t1])]])
     yield D([[m0, If([t0], [If([t1])], has_else=True)]])
+    yield D([[m0, If([t0]), Sw(1, [(0, [t1])])]])
+    yield D([[m0, If([t0]), Sw(1, [(0, [])], default=[t1])]])
+    yield D([[m0, If([t0]), Fsm(([t1], 0, "1"))]])
+    yield D([[m0, If([], [t0]), Fsm(([], 1, "in"), ([t1], 0, "in"))]])
+    yield D([[m0, Sw(1, [(0, [t0])]), Sw(1, [(0, [t1])])]])
+    # the same with the method defined AFTER its users (the control structures are then the first ones of the module)
+    for shape in ([If([t0], [t1], has_else=True)], [If([t0]), If([t1])], [Sw(1, [(0, [t0]), (1, [t1])])],
+                  [Fsm(([t0], 1, "in"), ([t1], 0, "in"))], [If([t0]), t1],
+                  [If([t0]), Sw(1, [(0, [t1])])], [If([t0]), Sw(1, [(0, [])], default=[t1])],
+                  [If([t0]), Fsm(([t1], 0, "1"))], [If([], [t0]), Fsm(([], 1, "in"), ([t1], 0, "in"))],
+                  [Sw(1, [(0, [t0])]), Sw(1, [(0, [t1])])], [Sw(1, [(0, [t0])]), If([t1])],
+                  [Fsm(([t0], 0, "1")), If([t1])], [If([t0]), If([]), Sw(1, [(0, [t1])])],
+                  [Sw(1, [(0, [])]), If([t0]), If([], [t1], has_else=True)]):
+        yield D([shape + [m0]])
     # one body, two calls, positions of a two-level skeleton
-    pos = ["top", "if0", "if1", "if0_in0", "if0_in1", "par"]
+    pos = ["top", "if0", "if1", "if0_in0", "if0_in1", "par", "psw", "pfsm"]
 
     def place(assign):
-        top, if0, if1, in0, in1, par = [], [], [], [], [], []
-        slots = {"top": top, "if0": if0, "if1": if1, "if0_in0": in0, "if0_in1": in1, "par": par}
+        top, if0, if1, in0, in1, par, psw, pfsm = [], [], [], [], [], [], [], []
+        slots = {"top": top, "if0": if0, "if1": if1, "if0_in0": in0, "if0_in1": in1, "par": par, "psw": psw, "pfsm": pfsm}
         for p in assign:
             slots[p].append(call("M0"))
         st = list(top)
@@ -145,6 +164,10 @@ def f_ctrl():
             st.append(If(if0 + inner, if1, has_else=True))
         if par:
             st.append(If(par))
+        if psw:
+            st.append(Sw(1, [(0, [])], default=psw))
+        if pfsm:
+            st.append(Fsm(([], 1, "in"), (pfsm, 0, "in")))
         return st
 
     for a in pos:
@@ -212,6 +235,17 @@ def f_rel(n=2, on="both", extra=True):
         yield D([[M("M0"), M("M1"), T("T0", [call("M0", en="in")]), T("T1", [call("M1")])]], [["before_rd", "M0", "T1", None]])
         yield D([[M("M0"), M("M1"), T("T0", [call("M0")]), T("T1", [If([call("M1")])]), T("T2", [])]],
                 [["before_rd", "T0", "M1", None], ["before_rd", "T0", "T2", None]])
+        # a body with TWO ready dependencies: two explicit sources; an enclosing body plus an explicit source
+        for tail in ([], [call("M2")]):
+            yield D([[M("M0"), M("M1"), M("M2"), T("T0", [call("M0")]), T("T1", [call("M1")]), T("T2", tail)]],
+                    [["before_rd", "T0", "T2", None], ["before_rd", "T1", "T2", None]])
+            yield D([[M("M0"), M("M1"), M("M2"), T("T0", [call("M0")]), T("T1", [call("M1")]), T("T2", tail)]],
+                    [["before_rd", "T1", "T2", None], ["before_rd", "T0", "T2", None]])
+            yield D([[M("M0"), M("M2"), T("T1", [call("M0")]), T("T0", [T("N0", tail)])]], [["before_rd", "T1", "N0", None]])
+            yield D([[M("M0"), M("M2"), T("T1", [call("M0")]), T("T0", [If([T("N0", tail)])])]], [["before_rd", "T1", "N0", None]])
+        yield D([[M("M0"), M("M1"), M("M2"), T("T0", [call("M0")]), T("T1", [call("M1")]), T("T2", [call("M2")])]],
+                [["before_rd", "M0", "M2", None], ["before_rd", "T1", "M2", None]])
+        yield D([[M("M0"), T("T1", [call("M0")]), T("T0", [M("N0")]), T("T2", [call("N0")])]], [["before_rd", "T1", "N0", None]])
         # shared exclusive method + prioritised explicit conflict elsewhere
         for r in RELS[1:4]:
             yield D([[M("M0"), M("M1"), T("T0", [call("M0")]), T("T1", [call("M0"), call("M1")]), T("T2", [call("M1")])]],
